@@ -38,6 +38,7 @@ type LoopSpec struct {
 	Decreases  *Clause
 	IterGhosts []GhostDecl // ghost variables (re)initialised at the start of every iteration
 	IterEnsures []Clause   // checked at the end of every iteration (back edge)
+	Exhaustive bool        // the loop is only left through its header (no break) or by returning
 }
 
 type Hook struct {
@@ -334,7 +335,7 @@ func splitArgs(s string) []string {
 	return out
 }
 
-var reLoop = regexp.MustCompile(`^loop\s+(\d+)\s*:\s*(invariant|decreases|iteration ghost|iteration ensures)\s+(.*)$`)
+var reLoop = regexp.MustCompile(`^loop\s+(\d+)\s*:\s*(invariant|decreases|iteration ghost|iteration ensures|exhaustive)\s*(.*)$`)
 var reAtCall = regexp.MustCompile(`^at\s+(call\s+|recv\s+)?(\S+?)\s*:\s*(after\s+)?(assert|assume|ghost|allocbound|havoc)\s+(.*)$`)
 var reGhost = regexp.MustCompile(`^ghost\s+(\w+)\s*:=\s*(.*)$`)
 var reSpecFn = regexp.MustCompile(`^spec\s+func\s+(\w+)\s*\(([^)]*)\)\s*(\w+)\s*(=\s*(.*))?$`)
@@ -559,6 +560,10 @@ func (db *SpecDB) loadText(data, path, pkgPath string, extern bool) error {
 				}
 				body := m[3]
 				gname := ""
+				if m[2] == "exhaustive" {
+					ls.Exhaustive = true
+					break
+				}
 				if m[2] == "iteration ghost" {
 					parts := strings.SplitN(body, ":=", 2)
 					if len(parts) != 2 {
@@ -1525,6 +1530,26 @@ func (env *SpecEnv) evalCall(x *ast.CallExpr) Val {
 			specFail("unknown identifier: no range over %s in progress", id.Name)
 		}
 		return g
+	case "visitedkey":
+		// visitedkey(m, k): the current range over map variable m has already handed out key k
+		var id *ast.Ident
+		switch a := x.Args[0].(type) {
+		case *ast.Ident:
+			id = a
+		case *ast.SelectorExpr:
+			id = a.Sel
+		default:
+			specFail("visitedkey needs the ranged map variable or field")
+		}
+		g, ok := env.cur().ghost["$vset!"+id.Name]
+		if !ok {
+			specFail("unknown identifier: no range over %s in progress", id.Name)
+		}
+		kv := arg(1)
+		if len(kv.L) != 1 {
+			specFail("visitedkey: composite key")
+		}
+		return boolVal(Select(g.L[0], kv.L[0]))
 	case "itercount", "iterarg":
 		// events since the start of the current loop iteration (the last loop cut on this path)
 		lit, ok := x.Args[0].(*ast.BasicLit)
@@ -1594,6 +1619,19 @@ func (env *SpecEnv) evalCall(x *ast.CallExpr) Val {
 		a, _ := strconv.Unquote(x.Args[0].(*ast.BasicLit).Value)
 		b, _ := strconv.Unquote(x.Args[1].(*ast.BasicLit).Value)
 		return boolVal(B(env.cur().eventsBefore(a, b)))
+	case "notafter":
+		// notafter("x", "marker"): no event x occurs after the first event marker
+		a, _ := strconv.Unquote(x.Args[0].(*ast.BasicLit).Value)
+		b, _ := strconv.Unquote(x.Args[1].(*ast.BasicLit).Value)
+		seen := false
+		for _, ev := range env.cur().trace {
+			if ev.Name == b {
+				seen = true
+			} else if seen && ev.Name == a {
+				return boolVal(TFalse)
+			}
+		}
+		return boolVal(TTrue)
 	case "has":
 		m := arg(0)
 		k := arg(1)
